@@ -367,6 +367,9 @@ func c14Invalid(x *c14Case) string {
 			return "204/304 carry no content"
 		}
 	}
+	if x.Sched == 3 && c14Situation(x) != "" {
+		return "the deprecated RFC 7540 priority scheduler with a stream that is reset while its handler is writing can crash the server (the C12 finding: Pop returns an empty request after CloseStream); left to C12/C16"
+	}
 	if x.Order == 1 && x.Method == "HEAD" {
 		return "a HEAD response is complete once its header block is flushed; the server then aborts the rest of the request (RFC 9113 8.1), so such handlers read the request first"
 	}
@@ -794,7 +797,7 @@ func c14Exchange(vw *vx.W, x *c14Case) (st c14Stats, completed bool) {
 			return
 		}
 		if cr1.err != nil {
-			fail("C14/client/roundtrip-error", "RoundTrip: %v; %s", cr1.err, ctxt())
+			fail("C14/client/roundtrip-error:"+c14ErrClass(cr1.err), "RoundTrip: %v; %s", cr1.err, ctxt())
 			return
 		}
 		if len(seenAll) != reps {
@@ -903,6 +906,21 @@ func c14Compare(fail func(sig, format string, a ...any), x *c14Case, seen *c14Se
 	} else if len(cr1.infos) != 0 {
 		fail("C14/response/informational", "client saw unexpected 1xx responses %v", cr1.infos)
 	}
+}
+
+// c14ErrClass names the HTTP/2 error code an error mentions (abstract class
+// for signatures).
+func c14ErrClass(err error) string {
+	s := err.Error()
+	for _, code := range []string{"PROTOCOL_ERROR", "INTERNAL_ERROR", "FLOW_CONTROL_ERROR", "SETTINGS_TIMEOUT", "STREAM_CLOSED", "FRAME_SIZE_ERROR", "REFUSED_STREAM", "CANCEL", "COMPRESSION_ERROR", "ENHANCE_YOUR_CALM", "NO_ERROR"} {
+		if strings.Contains(s, code) {
+			return code
+		}
+	}
+	if strings.Contains(s, "header list") {
+		return "header-list-size"
+	}
+	return "other"
 }
 
 type c14LockedWriter struct {
